@@ -1,6 +1,7 @@
 package p20
 
 import (
+	"verif/internal/fw"
 	"verif/internal/gen"
 )
 
@@ -33,11 +34,10 @@ func c20Assets(flows ...M) M {
 	a["topics"] = []M{{"uuid": u("topic:general"), "name": "General"}, {"uuid": u("topic:weather"), "name": "Weather"}}
 	a["users"] = []M{{"email": "bob@nyaruka.com", "name": "Bob"}, {"email": "jim@nyaruka.com", "name": "Jim"}}
 	a["labels"] = []M{{"uuid": u("label:spam"), "name": "Spam"}, {"uuid": u("label:important"), "name": "Important"}}
-	a["resthooks"] = []M{
-		{"slug": "new-registration", "subscribers": []string{"http://localhost/?cmd=success"}},
-		{"slug": "flaky-hook", "subscribers": []string{"http://localhost/?cmd=unavailable", "http://localhost/?cmd=gone"}},
-		{"slug": "empty-hook", "subscribers": []string{}},
-	}
+	// every combination of subscriber answers ("gone-hook" is not defined: the missing-resthook path)
+	a["resthooks"] = append(resthookAssets(),
+		M{"slug": "flaky-hook", "subscribers": []string{"http://localhost/?cmd=unavailable", "http://localhost/?cmd=gone"}},
+		M{"slug": "empty-hook", "subscribers": []string{}})
 	a["templates"] = []M{{
 		"uuid": u("template:affirmation"), "name": "affirmation",
 		"translations": []M{
@@ -115,8 +115,24 @@ func directed() []namedScen {
 		simple("call_webhook-"+cmd, act("wh", "call_webhook", M{"method": "POST", "url": "http://localhost/?cmd=" + cmd, "headers": M{"X-Org": "@globals.org_name"}, "body": "{\"age\": @(json(fields.age))}", "result_name": "webhook"}), nil, nil)
 	}
 	simple("call_webhook-no-result-name", act("wh", "call_webhook", M{"method": "GET", "url": "http://localhost/?cmd=success&nick=@contact.fields.nick"}), nil, nil)
-	for _, hook := range []string{"new-registration", "flaky-hook", "empty-hook", "gone-hook"} {
+	for _, hook := range []string{"flaky-hook", "empty-hook", "gone-hook"} {
 		simple("call_resthook-"+hook, act("rh", "call_resthook", M{"resthook": hook, "result_name": "Hook Result"}), nil, nil)
+	}
+	for _, h := range resthookPool {
+		if h.slug == "new-registration" {
+			simple("call_resthook-new-registration", act("rh", "call_resthook", M{"resthook": h.slug, "result_name": "Hook Result"}), nil, nil)
+		} else {
+			simple("call_resthook-subscribers-"+h.slug, act("rh", "call_resthook", M{"resthook": h.slug, "result_name": "Hook Result"}), nil, nil)
+		}
+	}
+	simple("call_resthook-no-result-name", act("rh", "call_resthook", M{"resthook": "all-gone"}), nil, nil)
+	{
+		// two hooks saving the same result one after the other: the first one's category is seen in the event only
+		as := single("messaging", []any{act("rh1", "call_resthook", M{"resthook": "all-gone", "result_name": "Hook Result"}), act("rh2", "call_resthook", M{"resthook": "new-registration", "result_name": "Hook Result"})})
+		add("call_resthook-gone-then-overwritten", &gen.Scenario{Assets: as, Trigger: d.Manual("A", nil), Resumes: timeoutOnly})
+	}
+	for _, cmd := range []string{"casekeys", "echo"} {
+		simple("call_webhook-"+cmd, act("wh", "call_webhook", M{"method": "GET", "url": "http://localhost/?cmd=" + cmd, "result_name": "webhook"}), nil, nil)
 	}
 	simple("call_classifier-success", act("cl", "call_classifier", M{"classifier": refOf("classifier", "booking", "Booking"), "input": "book a flight to @fields.state", "result_name": "Intent"}), nil, nil)
 	simple("call_classifier-failure", act("cl", "call_classifier", M{"classifier": refOf("classifier", "booking", "Booking"), "input": "please fail", "result_name": "Intent"}), nil, nil)
@@ -246,7 +262,156 @@ func directed() []namedScen {
 		add("send_msg-localized-spa", &gen.Scenario{Assets: as, Trigger: d.Manual("A", contact(M{"language": "spa"})), Resumes: msgThenTimeout})
 		add("send_msg-localized-eng", &gen.Scenario{Assets: as, Trigger: d.Manual("A", nil), Resumes: timeoutOnly})
 	}
+	out = append(out, plantedDirected()...)
 	return out
+}
+
+// plantedDirected: one scenario per action type (and one for routers / waits) in which EVERY free string property
+// of the action - evaluated by the flow spec or not - and every translation of it names a global or field that occurs
+// nowhere else; run once with an English and once with a Spanish contact (translations). The planted assets exist
+// with empty values, so each action still takes its ordinary path.
+func plantedDirected() []namedScen {
+	var out []namedScen
+	groups := []any{refOf("group", "customers", "Customers"), M{"name_match": "Testers"}}
+	other := func() M { return d.Flow("B", "messaging", d.Node("b1", []any{d.SendMsg("b1m", "hi")}, nil, d.Exit("b1x", ""))) }
+	type spec struct {
+		ftype   string
+		action  M
+		trigger string // "", "msg", "call", "facebook"
+	}
+	specs := []spec{
+		{"messaging", act("p", "send_msg", M{"text": "Hi", "attachments": []string{"image/jpeg:http://x.io/a.jpg"}, "quick_replies": []string{"Yes", "No"},
+			"template": refOf("template", "affirmation", "affirmation"), "template_variables": []string{"@contact.name", "x"}, "topic": "event"}), ""},
+		{"messaging", act("p", "send_broadcast", M{"text": "Hello", "attachments": []string{"image/jpeg:http://x.io/a.jpg"}, "quick_replies": []string{"Ok"}, "groups": groups,
+			"contacts": []M{{"uuid": u("contact:eve"), "name": "Eve"}}, "contact_query": "age > 10", "legacy_vars": []string{"Testers"}, "urns": []string{"tel:+12065550000"}}), ""},
+		{"messaging", act("p", "start_session", M{"flow": refOf("flow", "B", "B"), "groups": groups, "contacts": []M{{"uuid": u("contact:eve"), "name": "Eve"}},
+			"contact_query": "age > 10", "legacy_vars": []string{"Testers"}, "exclusions": M{}}), ""},
+		{"voice", act("p", "say_msg", M{"text": "Welcome", "audio_url": "http://x.io/welcome.mp3"}), "call"},
+		{"voice", act("p", "play_audio", M{"audio_url": "http://x.io/jingle.mp3"}), "call"},
+		{"messaging", act("p", "call_webhook", M{"method": "POST", "url": "http://localhost/?cmd=success", "headers": M{"Accept": "application/json", "X-Org": "org"}, "body": "{}", "result_name": "webhook"}), ""},
+		{"messaging", act("p", "call_resthook", M{"resthook": "new-registration", "result_name": "Hook Result"}), ""},
+		{"messaging", act("p", "call_classifier", M{"classifier": refOf("classifier", "booking", "Booking"), "input": "book a flight", "result_name": "Intent"}), ""},
+		{"messaging", act("p", "open_ticket", M{"topic": refOf("topic", "weather", "Weather"), "body": "Help", "assignee": M{"email": "bob@nyaruka.com", "name": "Bob"}, "result_name": "Ticket"}), ""},
+		{"messaging", act("p2", "open_ticket", M{"body": "Help", "assignee": M{"email_match": "jim@nyaruka.com"}, "result_name": "Ticket"}), ""},
+		{"messaging", act("p", "send_email", M{"addresses": []string{"bob@nyaruka.com"}, "subject": "Hi", "body": "Body"}), ""},
+		{"messaging", act("p", "set_contact_field", M{"field": M{"key": "gender", "name": "Gender"}, "value": "female"}), ""},
+		{"messaging", act("p", "set_contact_language", M{"language": "spa"}), ""},
+		{"messaging", act("p", "set_contact_name", M{"name": "Bobby"}), ""},
+		{"messaging", act("p", "set_contact_timezone", M{"timezone": "Africa/Kigali"}), ""},
+		{"messaging", act("p", "set_contact_status", M{"status": "stopped"}), ""},
+		{"messaging", act("p", "set_contact_channel", M{"channel": refOf("chan", "android", "Android")}), ""},
+		{"messaging", act("p", "set_run_result", M{"name": "Color", "value": "red", "category": "Red"}), ""},
+		{"messaging", act("p", "add_contact_urn", M{"scheme": "tel", "path": "+12065559999"}), ""},
+		{"messaging", act("p", "add_contact_groups", M{"groups": groups}), ""},
+		{"messaging", act("p", "remove_contact_groups", M{"groups": []any{refOf("group", "testers", "Testers"), M{"name_match": "Customers"}}}), ""},
+		{"messaging", act("p", "add_input_labels", M{"labels": []any{refOf("label", "spam", "Spam"), M{"name_match": "Important"}}}), "msg"},
+		{"messaging", d.Enter("p", "B", false), ""},
+		{"messaging", act("p", "transfer_airtime", M{"amounts": M{"RWF": 500}, "result_name": "Airtime"}), ""},
+		{"messaging", act("p", "request_optin", M{"optin": refOf("optin", "jokes", "Jokes")}), "facebook"},
+	}
+	build := func(sp spec, lang string) *gen.Scenario {
+		var as M
+		var flowName string
+		if sp.ftype == "voice" {
+			flowName = "V"
+			as = c20Assets(d.Flow("V", "voice", d.Node("a1", []any{sp.action}, nil, d.Exit("a1x", ""))), other())
+		} else {
+			flowName = "A"
+			as = single("messaging", []any{sp.action}, other())
+		}
+		c := contact(M{"language": lang})
+		if sp.trigger == "facebook" {
+			c["urns"] = []string{"facebook:1122334455"}
+		}
+		t := d.Manual(flowName, c)
+		switch sp.trigger {
+		case "msg":
+			t = d.MsgTrigger(flowName, c, "buy now")
+		case "call":
+			t["call"] = M{"uuid": u("call"), "channel": refOf("chan", "android", "Android"), "urn": "tel:+12065551212"}
+		}
+		s := &gen.Scenario{Assets: as, Trigger: t}
+		if sp.ftype != "voice" {
+			s.Resumes = []M{d.MsgResume(0, "hello")}
+		}
+		return s
+	}
+	plantAll := func(name string, s *gen.Scenario) {
+		pl := newPlanter(fw.NewRand(7, "C20/directed-plant:"+name, 0), s, 1, true, true)
+		pl.plantScenario()
+		out = append(out, namedScen{name, s})
+	}
+	seenType := map[string]int{}
+	for _, sp := range specs {
+		typ := sp.action["type"].(string)
+		seenType[typ]++
+		name := "planted-" + typ
+		if seenType[typ] > 1 {
+			name += "-" + string(rune('a'+seenType[typ]-1))
+		}
+		for _, lang := range []string{"eng", "spa"} {
+			// the action is mutable JSON: build it afresh for each scenario
+			fresh := plantedSpecAction(sp.action)
+			sp2 := sp
+			sp2.action = fresh
+			plantAll(name+"-"+lang, build(sp2, lang))
+		}
+	}
+	// routers and waits: operand, case arguments, category names, dial phone
+	for _, lang := range []string{"eng", "spa"} {
+		yes, othr, tmo := d.Cat("Yes", "pr1yes"), d.Cat("Other", "pr1other"), d.Cat("No Response", "pr1tmo")
+		router := d.Switch("@input.text", []M{yes, othr, tmo}, othr, []M{
+			{"type": "has_any_word", "arguments": []string{"yes yeah"}, "category_uuid": yes["uuid"]},
+			{"type": "has_phrase", "arguments": []string{"of course"}, "category_uuid": yes["uuid"]},
+		}, M{"type": "msg", "timeout": M{"seconds": 60, "category_uuid": tmo["uuid"]}}, "Answer")
+		fl := d.Flow("A", "messaging", d.Node("r1", []any{d.SendMsg("r1m", "Yes or no?")}, router, d.Exit("pr1yes", ""), d.Exit("pr1other", "r1"), d.Exit("pr1tmo", "")))
+		s := &gen.Scenario{Assets: c20Assets(fl), Trigger: d.Manual("A", contact(M{"language": lang})), Resumes: []M{d.MsgResume(0, "maybe"), d.MsgResume(1, "yes")}}
+		plantAll("planted-router-switch-"+lang, s)
+
+		a, b := d.Cat("Bucket A", "prndA"), d.Cat("Bucket B", "prndB")
+		nodes := append([]M{d.Node("a1", nil, M{"type": "random", "categories": []any{a, b}, "result_name": "Bucket"}, d.Exit("prndA", "w1"), d.Exit("prndB", "w1"))}, tail()...)
+		plantAll("planted-router-random-"+lang, &gen.Scenario{Assets: c20Assets(d.Flow("A", "messaging", nodes...)), Trigger: d.Manual("A", contact(M{"language": lang})), Resumes: []M{d.Timeout(0)}})
+
+		dc, dn := d.Cat("Answered", "pv1ans"), d.Cat("Other", "pv1other")
+		vf := d.Flow("V", "voice", d.Node("v1", []any{act("v1s", "say_msg", M{"text": "dialing"})},
+			d.Switch("@(default(resume.dial.status, \"\"))", []M{dc, dn}, dn, []M{{"type": "has_only_text", "arguments": []string{"answered"}, "category_uuid": dc["uuid"]}}, M{"type": "dial", "phone": "+12065551212"}, "Dial"),
+			d.Exit("pv1ans", ""), d.Exit("pv1other", "")))
+		t := d.Manual("V", contact(M{"language": lang}))
+		t["call"] = M{"uuid": u("call"), "channel": refOf("chan", "android", "Android"), "urn": "tel:+12065551212"}
+		plantAll("planted-wait-dial-"+lang, &gen.Scenario{Assets: c20Assets(vf), Trigger: t, Resumes: []M{d.Dial(0, "answered")}})
+	}
+	return out
+}
+
+// plantedSpecAction deep-copies an action built from literals (maps, lists, strings, numbers).
+func plantedSpecAction(a M) M {
+	return deepCopy(a).(M)
+}
+
+func deepCopy(v any) any {
+	switch t := v.(type) {
+	case M:
+		out := M{}
+		for k, x := range t {
+			out[k] = deepCopy(x)
+		}
+		return out
+	case []any:
+		out := make([]any, len(t))
+		for i, x := range t {
+			out[i] = deepCopy(x)
+		}
+		return out
+	case []M:
+		out := make([]M, len(t))
+		for i, x := range t {
+			out[i] = deepCopy(x).(M)
+		}
+		return out
+	case []string:
+		return append([]string{}, t...)
+	}
+	return v
 }
 
 var directedCache []namedScen
